@@ -1,5 +1,5 @@
 (* C05, not property obligations: statements the faithful model of the code refutes. *)
-From SG Require Import Base.Prelude C05.WriteLoop C05.WriteLoopProofs C05.WriteLoopTheorems.
+From SG Require Import Base.Prelude C05.WriteLoop C05.WriteLoopProofs C05.WriteLoopTheorems C05.WriteLoopLinear.
 Open Scope N_scope.
 
 (* KNOWN FINDING (known_findings.json, signature lost-update-tombstone-resurrection-race): "every acknowledged
@@ -15,6 +15,15 @@ Proof.
   destruct unchecked_resurrection_loses_acked_write as (w & H1 & H2 & H3 & _).
   exists w, (3, 330), 3. auto.
 Qed.
+
+(* the same known finding refutes linearizability for the storage layer as it is: after the stale resurrection
+   the stored tree is no longer the concatenation of what the acknowledged writes added (three commits, the third
+   one built on the first one's tree), and replaying the commits in order fails at the third *)
+Lemma C05_tree_linearizable_refuted_for_unchecked_resurrection :
+  exists ac tab ops sched,
+    let s := run true true ac tab ops sched in
+    d_tree (st s) <> flat_map c_added (commits s) /\ replay ac tab (commits s) = None.
+Proof. exists true, res_tab, res_ops, res_sched. vm_compute. split; [discriminate | reflexivity]. Qed.
 
 (* FIXED (fix: 1ddf6a0): the unrepaired write loop forgot reserved sequences *)
 Lemma C05_unrepaired_write_loop_leaks_sequences :
